@@ -303,10 +303,54 @@ func (c Cap) AddCap(other Cap) Cap {
 		return c
 	}
 
-	// We round up the distance to ensure that the cap is actually contained.
-	// TODO(roberts): Do some error analysis in order to guarantee this.
-	dist := ChordAngleBetweenPoints(c.center, other.center).Add(other.radius)
-	if newRad := dist.Expanded(dblEpsilon * float64(dist)); newRad > c.radius {
+	// We round up the distance to ensure that the cap is actually contained,
+	// i.e. that every point p accepted by other.ContainsPoint is also accepted
+	// by the result's ContainsPoint.
+	//
+	// Error analysis. Write len(x) = sqrt(x) for the chord length of a
+	// ChordAngle x (a squared length). For points on the sphere the triangle
+	// inequality for angles gives
+	//
+	//	len(chord2(c.center, p)) <= len(chord2(c.center, other.center) "+" chord2(other.center, p))
+	//
+	// where "+" is the exact ChordAngle addition. In terms of chord LENGTHS
+	// that addition is non-decreasing and 1-Lipschitz in each argument (the
+	// derivative of 2*sin((a+b)/2) with respect to 2*sin(a/2) is
+	// cos((a+b)/2)/cos(a/2) <= 1 while a+b <= Pi; beyond that the sum is
+	// clamped to the straight angle), so errors of the arguments simply add
+	// up when they are measured as chord lengths.
+	//
+	//  (1) centerDist is computed from two points. By the error model of
+	//      ChordAngle.MaxPointError the true squared distance (after projecting
+	//      the points onto the sphere) is at most centerDist*(1+4.5*dblEpsilon).
+	//      (The absolute term 16*dblEpsilon^2 of MaxPointError does not enter
+	//      an UPPER bound of the true distance: two vectors of slightly different
+	//      norm are farther apart than their projections, |x-y|^2 =
+	//      |x||y| chord2 + (|x|-|y|)^2.)
+	//  (2) A point p is accepted by other when the COMPUTED chord2(other.center, p)
+	//      is <= other.radius, so its true squared distance from other.center
+	//      is at most other.radius*(1+4.5*dblEpsilon).
+	//      As lengths, (1) and (2) are errors of at most 2.25*dblEpsilon*len(x);
+	//      delta below is their sum.
+	//  (3) The true squared distance from c.center to p is therefore at most
+	//      (len(sum)+delta)^2 = sum + 2*len(sum)*delta + delta^2, where sum is the
+	//      exact addition; ChordAngle.Add evaluates it with a relative error of
+	//      4.5 roundings = 2.25*dblEpsilon (all terms are non-negative).
+	//  (4) The result accepts p when the COMPUTED chord2(c.center, p) is <= the
+	//      new radius; that value exceeds the true one by at most
+	//      dist.MaxPointError().
+	//
+	// maxErr is the sum of (1)-(4), with 3*dblEpsilon for the rounding of Add,
+	// and is multiplied by 1.5 as an additional safety factor. For caps of
+	// ordinary size this is a relative expansion of the squared radius by
+	// 15-25 dblEpsilon. In an adversarial search with points constructed on the
+	// cap boundaries, failures were only observed with less than a quarter of maxErr.
+	centerDist := ChordAngleBetweenPoints(c.center, other.center)
+	dist := centerDist.Add(other.radius)
+	delta := 2.25 * dblEpsilon * (math.Sqrt(float64(centerDist)) + math.Sqrt(float64(other.radius)))
+	maxErr := 2*math.Sqrt(float64(dist))*delta + delta*delta +
+		dist.MaxPointError() + 3*dblEpsilon*float64(dist)
+	if newRad := dist.Expanded(1.5 * maxErr); newRad > c.radius {
 		c.radius = newRad
 	}
 	return c
